@@ -66,11 +66,23 @@ func c12ClusterRound(c *Ctx, round int, n, k int, order []int, finishBefore int,
 	os.WriteFile(filepath.Join(dir, "split", "_complete"), []byte(""), 0o644)
 	_ = split
 	res := &core.JobResources{Threads: 1, MemGB: 1}
+	// Progress-based: when every goroutine that is inside the job manager / the semaphore is parked
+	// in cond.Wait (nobody is submitting, nobody is between two steps), nothing can change any more
+	// without the harness doing something — the condition is then false for good and there is no
+	// point in waiting for the load-scaled deadline.
 	wait := func(cond func() bool) bool {
 		dl := time.Now().Add(c12Wait)
+		still := 0
 		for !cond() {
 			if time.Now().After(dl) {
 				return false
+			}
+			if mjParkDetection && mjAllParked() {
+				if still++; still >= 5 {
+					return cond()
+				}
+			} else {
+				still = 0
 			}
 			time.Sleep(2 * time.Millisecond)
 		}
@@ -303,7 +315,8 @@ func runC12Cluster(c *Ctx) {
 		rounds = 120
 	}
 	reported := map[string]bool{}
-	for round := 0; round < rounds; round++ {
+	stop := false
+	for round := 0; round < rounds && !stop; round++ {
 		n := 1 + c.Rng.Intn(3)
 		k := n + 1 + c.Rng.Intn(4)
 		order := c.Rng.Perm(k)
@@ -353,7 +366,11 @@ func runC12Cluster(c *Ctx) {
 			continue
 		}
 		reported[v.key] = true
+		stop = true
 		r.violate(Violation{Kind: "property", Key: v2.key, What: "cluster mode, mrp restart: " + v2.what, Input: v2.extra,
 			Expect: "semaphore count = jobs in flight after re-attach; never more than --maxjobs outstanding; every chunk runs"})
+	}
+	if stop {
+		r.note("cluster restart rounds stopped after the first confirmed violation")
 	}
 }
